@@ -22,7 +22,7 @@ func init() {
 	gens["C01"] = func(m *M, pick func(q, t int) int, shards int) {
 		// full-width multiplications dominate the validator's time: one per trace file
 		m.perFile = 1
-		genC01(m, pick(48, 400), 0)
+		genC01(m, pick(48, 256), 0)
 		perFile(m, pick(60, 2000)*5, shards)
 		genC01(m, 0, pick(60, 2000))
 	}
@@ -39,15 +39,15 @@ func init() {
 	gens["C05"] = simple(genC05, 1700, 20000)
 	gens["C06"] = simple(genC06, 3000, 100000)
 	gens["C07"] = simple(genC07, 900, 20000)
-	gens["C08"] = simple(genC08, 70, 1500)
-	gens["C09"] = simple(genC09, 120, 2500)
+	gens["C08"] = simple(genC08, 70, 6000)
+	gens["C09"] = simple(genC09, 120, 8000)
 	gens["C13"] = simple(genC13, 1500, 40000)
 	gens["C14"] = simple(genC14, 450, 10000)
 	gens["C15"] = simple(genC15, 600, 15000)
 	gens["C18"] = simple(genC18, 400, 10000)
 	gens["C10"] = func(m *M, pick func(q, t int) int, shards int) {
-		perFile(m, pick(100, 3000)*42, shards)
-		genC10(m, pick(100, 3000), 40)
+		perFile(m, pick(100, 1200)*42, shards)
+		genC10(m, pick(100, 1200), 40)
 	}
 }
 
@@ -59,6 +59,7 @@ func main() {
 	shards := flag.Int("shards", 16, "number of trace files to spread histories over")
 	scale := flag.Float64("scale", 1.0, "budget multiplier")
 	scenario := flag.String("scenario", "", "re-execute the calls of a recorded history (ndjson) instead of generating")
+	flag.StringVar(&focus, "focus", "", "C16 generator only: restrict the concurrent call mix to the actions of this property")
 	flag.Parse()
 	if *out == "" || *prop == "" {
 		fmt.Fprintln(os.Stderr, "usage: harness -prop Cxx -out DIR [-seed N] [-tier quick|thorough] [-scenario FILE]")
